@@ -1,5 +1,6 @@
 mod common;
 mod e1;
+mod e4;
 mod lanes;
 mod vcore;
 
@@ -29,6 +30,8 @@ fn main() {
             Some("c11") => lanes::c11::replay(&v),
             Some("c14") => lanes::c14::replay(&v),
             Some("c15") => lanes::c15::replay(&v),
+            Some("c17") => e4::c17::replay(&v),
+            Some("c18") => e4::c18::replay(&v),
             Some("c19") => lanes::c19::replay(&v),
             Some("c20") => lanes::c20::replay(&v),
             other => {
@@ -57,6 +60,8 @@ fn main() {
         "C11" => lanes::c11::run(tier),
         "C14" => lanes::c14::run(tier),
         "C15" => lanes::c15::run(tier),
+        "C17" => e4::c17::run(tier),
+        "C18" => e4::c18::run(tier),
         "C19" => lanes::c19::run(tier),
         "C20" => lanes::c20::run(tier),
         _ => {
